@@ -536,6 +536,14 @@ impl VarIntEncoder {
                     ((64 - value.leading_zeros() + 7) / 8) as usize
                 };
                 
+                // The 2-bit selector can describe 1..=4 bytes; a wider value would be
+                // truncated and would corrupt the selectors of its neighbours
+                if bytes_needed > 4 {
+                    return Err(ZiporaError::invalid_data(
+                        "Group varint supports values up to 32 bits"
+                    ));
+                }
+                
                 // Encode bytes needed in selector (2 bits per value)
                 selector |= ((bytes_needed - 1) as u8) << (i * 2);
                 
